@@ -57,7 +57,7 @@ def check(ctx):
            detail="" if ok else "no RuntimeError raised under `borrower in self._borrowers`", by=("borrower in self._borrowers",))
 
     # ---- R10-c FIFO
-    queue_ends(ctx, "R10-c", "CapacityLimiter", "_wait_queue", A, min_put=1, min_take=2)
+    queue_ends(ctx, "R10-c", "CapacityLimiter", "_wait_queue", A)
     queue_ends(ctx, "R10-c", "Semaphore", "_waiters", A)
 
     # ---- R10-d / R10-e cancel-safe limiter waiter, undo symmetry
